@@ -91,6 +91,7 @@ class PhasePredictor(QTable):
             np.asarray(self["tmid"].jd1).tobytes(),
             np.asarray(self["tmid"].jd2).tobytes(),
             np.asarray(self["span"].to_value(u.s)).tobytes(),
+            self["tmid"].scale,
         )
         if getattr(self, "_intervals_rows", None) != rows:
             self._intervals = None
@@ -139,10 +140,17 @@ class PhasePredictor(QTable):
         pos = np.minimum(pos, len(order) - 1)
         # Seconds since the reference are coarse far from it (4 ns after a year):
         # settle the ties with exact comparisons of the times themselves.
-        late = (times > span_ends[order[pos]]) & (pos < len(order) - 1)
-        pos = pos + late
-        early = (pos > 0) & (times <= span_ends[order[np.maximum(pos - 1, 0)]])
-        pos = pos - early
+        # (repeated rows tie exactly: step until the rule holds)
+        for _ in range(len(order)):
+            late = (times > span_ends[order[pos]]) & (pos < len(order) - 1)
+            if not np.any(late):
+                break
+            pos = pos + late
+        for _ in range(len(order)):
+            early = (pos > 0) & (times <= span_ends[order[np.maximum(pos - 1, 0)]])
+            if not np.any(early):
+                break
+            pos = pos - early
         index = order[pos]
         dt = (times - self["tmid"][index]).to_value(u.s)
         return index, dt
